@@ -35,6 +35,8 @@ whose value is an immutable function of its key is not shared mutable state; com
 class-level table that only _compile reads are declaration phase.
 Round 8: memoised builders (lru_cache on a function that makes packets); shallow copies of objects
 kept on a shared field; strategies read the field name at call time.
+Round 9: nothing per class is kept in the user's configuration dictionary; a module-level
+container is never handed to a method that stores into that parameter.
 """
 import ast
 
